@@ -168,7 +168,7 @@ def value_strategy(kind):
 AWKWARD_NAMES = ['n_failures', 'a_min_ok', 'Index', 'a b', "it's", 'q"x',
                  'a,b', '#c', 'é', '中', 'type', 'fields', 'x_max_ok', '0',
                  'A', 'a', 'b', 'c', 'col', 'RowNumber', 'share %', '%s',
-                 '{0}', 'a%%b']
+                 '{0}', 'a%%b', 'val', '2019', '7', 'n', 'VAL']
 
 
 def name_strategy():
